@@ -1115,7 +1115,12 @@ impl From<Result<(), StepError>> for VerifOutcome {
     fn from(r: Result<(), StepError>) -> Self {
         match r {
             Ok(()) => VerifOutcome::Ok,
-            Err(StepError::TaskFailure(_)) => VerifOutcome::TaskFailure,
+            Err(StepError::TaskFailure(payload)) => {
+                // not dropped: the drop glue of a `Box<dyn Any + Send>` is a dynamic call a solver back end
+                // has to resolve against every type ever boxed that way
+                std::mem::forget(payload);
+                VerifOutcome::TaskFailure
+            }
             Err(StepError::SchedulingError) => VerifOutcome::SchedulingError,
             Err(StepError::Deadlock) => VerifOutcome::Deadlock,
             Err(StepError::StepBoundExceeded) => VerifOutcome::StepBoundExceeded,
